@@ -66,6 +66,11 @@ def confOk (a : Args W) (life : Int) (c : Conf) : Bool :=
   c.method == .bearer && c.recipient == some a.destination && c.irt == some a.inResponseTo &&
   c.nooa == some (a.now + life)
 
+/-- "carries bearer confirmation whose Recipient … InResponseTo … expiry …": there is a bearer
+    confirmation and every bearer confirmation carries exactly these data (other methods: silent). -/
+def confsOk (a : Args W) (life : Int) (cs : List Conf) : Bool :=
+  cs.any (·.method == .bearer) && cs.all (fun c => c.method != .bearer || confOk a life c)
+
 /-- the format the request asks for -/
 def requestedFormat (a : Args W) : Option String :=
   match a.nameIdPolicy with
@@ -88,12 +93,17 @@ def formatOk (d : Defaults) (cfg : Cfg) (a : Args W) (n : Option NameId) : Bool 
         n.format == some (specPolicyFormat d p a.spEntityId (cfg.ras.lookup a.spEntityId)) ||
         n.format == some (specPolicyFormat d p q (cfg.ras.lookup q))
 
+/-- The side condition that excludes the recorded defect: when the request names no format, the
+    IdentDB holds no identifier `find_nameid` would return for this user and qualifier. -/
+def noStoredReuse (a : Args W) : Bool :=
+  (requestedFormat a).isSome || (findNameid a).isEmpty
+
 /-- issuer, audience, confirmation data, validity: everything but the format and the signatures -/
 def assertionCoreOk (d : Defaults) (cfg : Cfg) (a : Args W) (x : IssuedAssertion W) : Bool :=
   let life := lifetimeOf d cfg a
   x.issuer == some cfg.entityId &&
   x.audiences == [[a.spEntityId]] &&
-  !x.confs.isEmpty && x.confs.all (confOk a life) &&
+  confsOk a life x.confs &&
   x.condNooa == some (a.now + life) &&
   (match x.condNb with | some t => decide (t ≤ a.now) | none => true)
 
@@ -129,7 +139,7 @@ def whyScoping (d : Defaults) (cfg : Cfg) (a : Args W) (out : Except Refusal (Is
     (if r.issueInstant == a.now then [] else ["issue-instant"]) ++
     (if r.assertions.length == 1 then [] else ["assertion-count"]) ++
     (if r.assertions.all (fun x => x.audiences == [[a.spEntityId]]) then [] else ["audience"]) ++
-    (if r.assertions.all (fun x => !x.confs.isEmpty && x.confs.all (confOk a (lifetimeOf d cfg a))) then [] else ["confirmation"]) ++
+    (if r.assertions.all (fun x => confsOk a (lifetimeOf d cfg a) x.confs) then [] else ["confirmation"]) ++
     (if r.assertions.all (fun x => x.condNooa == some (a.now + lifetimeOf d cfg a) &&
         (match x.condNb with | some t => decide (t ≤ a.now) | none => true)) then [] else ["conditions-window"]) ++
     (if signaturesOk cfg a r then [] else ["signature"]) ++
